@@ -450,7 +450,9 @@ class Rotation(torch.nn.Module):
             axis, angle = _quaternion_to_axis_angle(quaternions_)
             angle = (angle + torch.pi * reflection_.float()).unsqueeze(-1)
             is_improper = inversion_ ^ reflection_
-            quaternions_ = torch.cat((torch.sin(angle / 2) * axis, torch.cos(angle / 2)), -1)
+            reflected = torch.cat((torch.sin(angle / 2) * axis, torch.cos(angle / 2)), -1)
+            # only the elements that contain a reflection are replaced (a zero-angle rotation has no axis to recompute from)
+            quaternions_ = torch.where(reflection_.unsqueeze(-1), reflected, quaternions_)
         elif inversion_.any():
             is_improper = inversion_
         else:
